@@ -16,6 +16,10 @@ CLAIMS = {
          "Decides structural necessary conditions for ALL mutation histories: (R1) in every mutating method of the embedded drivers (thorough: every driver) each path to a possibly-nil return that writes to the store also calls Timestamp.Touch, and GetTimestamp reads that Timestamp; (R2) a checked Validate/ValidateGraphName dominates every hand-over of a client element or graph name from the server to a driver; (R3) exact-key store operations receive full keys and prefix operations receive prefixes, key builders and parsers agree component-wise, and every query-visible key family written by an insert is deleted by the matching delete and by DeleteGraph. Does not decide last-write-wins, cascades beyond key families, or value-level equality with the abstract graph.",
          "Trusted: go/types, go/cfg; kvi Update/BulkWrite/View run their callback synchronously and return nil only if it did (checked for the drivers under C10); tables of store-write calls for the non-embedded drivers.",
          "DESIGN.md §4 C03"),
+ "C04": ("atomic-unit grouping of store writes by key family (AST + go/types), mirror-field/constructor analysis, must-precede dataflow",
+         "Decides structural necessary conditions for ALL histories and crash points within the property's crash model: (R1) every mutating operation of the embedded driver issues its writes to the mutually-constrained key families (records v,e; adjacency s,d; label index i,t) inside one BulkWrite/Update callback; (R2) every in-memory map/slice that a method updates together with a persisted key family is rebuilt from that family by every constructor (restart equivalence of the index-field registry); (R3) AddGraph registers the label-index fields before writing the graph key. Does not decide equality of the observable graph across reopen, nor atomicity inside a driver's transaction (C10).",
+         "Trusted: each top-level KVInterface write and each Update/BulkWrite callback is atomic (the property's stated crash model); go/types, go/cfg.",
+         "DESIGN.md §4 C04"),
 }
 
 PENDING_REASON = "check not built yet in this round; see DESIGN.md §4 for the structural clause planned (static analysis)"
